@@ -146,14 +146,35 @@ func c07Ops() []c07Op {
 			}
 			return true, g.points("N1", data.Point{Type: "value", Value: float64(time.Now().Unix() % 1000), Origin: "other"})
 		}},
+		{"an unrelated node is created under the root", func(g *rig, m *c07Model) (bool, error) {
+			id := fmt.Sprintf("X%d", len(m.typ))
+			if err := g.points(id, data.Point{Type: "description", Text: id, Origin: "creator"}); err != nil {
+				return true, err
+			}
+			if err := g.edge(id, m.root, "other", false, "creator"); err != nil {
+				return true, err
+			}
+			m.edges[[2]string{m.root, id}] = false
+			m.typ[id] = "other"
+			return true, nil
+		}},
 		{"a minute passes", func(g *rig, m *c07Model) (bool, error) {
 			return true, nil // handled by the scheduler (virtual time advances in 10 ms steps)
 		}},
 	}
 }
 
-func c07Body(t *testing.T, depth, devBound int) mc.Body {
-	ops := c07Ops()
+// c07Body: fixture = start from {group G, vNode N1 under G, custom parent P} instead of the empty tree;
+// subset = indices of the operations offered (nil = all); slow = clients take 3 s to stop.
+func c07Body(t *testing.T, depth, devBound int, fixture bool, subset []int, slow bool) mc.Body {
+	all := c07Ops()
+	ops := all
+	if subset != nil {
+		ops = nil
+		for _, i := range subset {
+			ops = append(ops, all[i])
+		}
+	}
 	return func(x *mc.X) mc.Outcome {
 		var out mc.Outcome
 		leak := bubble(t, func() {
@@ -163,6 +184,24 @@ func c07Body(t *testing.T, depth, devBound int) mc.Body {
 				return
 			}
 			m := &c07Model{root: g.inst.RootID, typ: map[string]string{}, edges: map[[2]string]bool{}}
+			if slow {
+				g.reg.stopDelay = 3 * time.Second
+			}
+			if fixture {
+				err := g.s.do(func() error {
+					for _, i := range []int{2, 4, 6} { // create G, N1 under G, P
+						if _, e := all[i].do(g, m); e != nil {
+							return e
+						}
+					}
+					return nil
+				}, false)
+				if err != nil {
+					out = mc.Outcome{Violation: "HARNESS: fixture: " + err.Error(), Key: "harness"}
+					return
+				}
+				x.Logf("fixture: G, N1 under G, P")
+			}
 			stopped := false
 			defer func() {
 				if !stopped {
@@ -300,15 +339,27 @@ func TestC07(t *testing.T) {
 		if thorough() {
 			depth, dev = 4, 2
 		}
+		// second part: start from a populated tree, clients that need 3 s to stop, group churn and rescan triggers
+		churn := []int{2, 3, 4, 5, 11, 12, 13, 0}
+		cd := 4
+		if thorough() {
+			cd = 5
+		}
+		defer r.Explore(mc.Config{Name: fmt.Sprintf("group-churn-slow-clients-d%d", cd), Serial: true, SplitDepth: 3, DevBound: 0,
+			Rule: fmt.Sprintf("start state {group G, vNode N1 under G, custom parent P}, instrumented clients that keep running for 3 s after Stop; all histories of %d operations over 8 (delete/undelete G, delete/undelete N1 under G, point update, unrelated node created = rescan trigger, a minute passes, N1 mirrored under the root); same oracles", cd)},
+			c07Body(t, cd, 0, true, churn, true))
 		r.Explore(mc.Config{Name: fmt.Sprintf("histories-d%d-dev%d", depth, dev), Serial: true, SplitDepth: 3, DevBound: dev, SelfCheckEvery: 97,
-			Rule: fmt.Sprintf("all histories of %d operations over 13 (create/delete/undelete a vNode under the root, under a group, under a custom parent type; mirror it under a second parent; delete/undelete the containing group; add/remove a child; point update; a minute passes), each operation followed by a run to quiescence; up to %d timing deviations per execution (manager started after the first operation; next operation issued without waiting for quiescence); then two rescan periods, and the oracles: never two clients per placement, running set = reference set = set started by a fresh manager, client config = store content, Stop returns", depth, dev)},
-			c07Body(t, depth, dev))
+			Rule: fmt.Sprintf("all histories of %d operations over 14 (create/delete/undelete a vNode under the root, under a group, under a custom parent type; mirror it under a second parent; delete/undelete the containing group; add/remove a child; point update; a minute passes), each operation followed by a run to quiescence; up to %d timing deviations per execution (manager started after the first operation; next operation issued without waiting for quiescence); then two rescan periods, and the oracles: never two clients per placement, running set = reference set = set started by a fresh manager, client config = store content, Stop returns", depth, dev)},
+			c07Body(t, depth, dev, false, nil, false))
 		r.Assume("message delivery inside one step follows the Go scheduler (GOMAXPROCS=1 per shard); timing deviations are enumerated at operation granularity, not per message")
 		r.Assume("time is virtual (testing/synctest): timeouts fire only when nothing else can run")
 	})
 }
 
 func init() {
-	bodies["C07/histories-d3-dev1"] = func(t *testing.T) mc.Body { return c07Body(t, 3, 1) }
-	bodies["C07/histories-d4-dev2"] = func(t *testing.T) mc.Body { return c07Body(t, 4, 2) }
+	bodies["C07/histories-d3-dev1"] = func(t *testing.T) mc.Body { return c07Body(t, 3, 1, false, nil, false) }
+	bodies["C07/histories-d4-dev2"] = func(t *testing.T) mc.Body { return c07Body(t, 4, 2, false, nil, false) }
+	churn := []int{2, 3, 4, 5, 11, 12, 13, 0}
+	bodies["C07/group-churn-slow-clients-d4"] = func(t *testing.T) mc.Body { return c07Body(t, 4, 0, true, churn, true) }
+	bodies["C07/group-churn-slow-clients-d5"] = func(t *testing.T) mc.Body { return c07Body(t, 5, 0, true, churn, true) }
 }
